@@ -2,5 +2,5 @@
 From Coq Require Import Extraction ExtrOcamlBasic NArith ZArith.
 From Tele Require Import Lib.Bytes Lib.BytesN Model.DecodeStack Model.Layout Model.Parse.
 Extraction Language OCaml.
-Extraction "parse_model.ml" len get32 parse parse_with oob_head spec_read decode_stack last_wins
+Extraction "parse_model.ml" len get32 parse parse_with spec_read decode_stack last_wins
   twin_clash_from linked_pairs N.ltb N.leb N.add N.sub Z.of_N.
